@@ -1,19 +1,30 @@
-// C11 child: configure a synchronous logger with a file sink, log n messages, then die by qFatal.
-// usage: c11child <dir> <cfg: fluent|nested|oneline|ini> <sink: file|rotbig|rotsmall|rotdaily> <thread: main|sec> <n> <size>
+// C11 child: configure a synchronous logger with file sink(s), log a sequence of records of given lengths, die by qFatal.
+// usage: c11child <dir> <cfg> <sink> <thread: main|sec> <len,len,...,len>     (the last length is the fatal record's)
+//   cfg : fluent | nested | oneline | ini | brokenfirst | fullfirst | twofiles | stderrfirst
+//   sink: file | rotbig | rot1 (1-byte limit: every record rotates) | rot2 (limit = 40 bytes: a few records per file) | rotdaily
+// Record i has the text "r<i>:" padded with 'x' to exactly the given length (>= 6).
 #include <QCoreApplication>
 #include <QThread>
 #include <sys/resource.h>
 #include <thread>
+#include <vector>
 #include "qtlogger/qtlogger.h"
 
-static void work(int n, int size)
+static QByteArray text(int i, int len, bool fatal)
 {
-    QByteArray pay(size, 'x');
-    for (int i = 0; i < n; i++) {
-        if (i % 2) qWarning("m%d:%s", i, pay.constData());
-        else qDebug("m%d:%s", i, pay.constData());
+    QByteArray t = (fatal ? QByteArray("FATAL") : QByteArray("r") + QByteArray::number(i)) + ":";
+    while (t.size() < len) t += 'x';
+    return t;
+}
+static void work(const std::vector<int> &lens)
+{
+    for (size_t i = 0; i + 1 < lens.size(); i++) {
+        QByteArray t = text(int(i), lens[i], false);
+        if (i % 3 == 1) qWarning("%s", t.constData());
+        else if (i % 3 == 2) qInfo("%s", t.constData());
+        else qDebug("%s", t.constData());
     }
-    qFatal("FATAL:%s", pay.constData());
+    qFatal("%s", text(0, lens.back(), true).constData());
 }
 
 int main(int argc, char **argv)
@@ -21,28 +32,44 @@ int main(int argc, char **argv)
     struct rlimit rl = { 0, 0 };
     setrlimit(RLIMIT_CORE, &rl);
     QCoreApplication app(argc, argv);
-    if (argc < 7) return 2;
+    if (argc < 6) return 2;
     QString dir = QString::fromLocal8Bit(argv[1]);
     QString cfg = argv[2], sink = argv[3], thr = argv[4];
-    int n = atoi(argv[5]), size = atoi(argv[6]);
+    std::vector<int> lens;
+    for (auto &p : QString(argv[5]).split(',', Qt::SkipEmptyParts)) lens.push_back(p.toInt());
+    if (lens.empty()) return 2;
     QString path = dir + "/app.log";
     int L = 0, N = 0;
     QtLogger::RotatingFileSink::Options opts = QtLogger::RotatingFileSink::None;
     if (sink == "rotbig") L = 50 * 1024 * 1024;
-    else if (sink == "rotsmall") L = 1;                      // every record after the first rotates: the fatal one too
+    else if (sink == "rot1") L = 1;                      // every record after the first rotates: the fatal one too
+    else if (sink == "rot2") L = 40;
     else if (sink == "rotdaily") opts = QtLogger::RotatingFileSink::RotationDaily;
+    const QString pat = QStringLiteral("%{type} %{message}");
     if (cfg == "fluent") {
-        gQtLogger.format("%{type} %{message}").sendToFile(path, L, N, opts);
+        gQtLogger.format(pat).sendToFile(path, L, N, opts);
         gQtLogger.installMessageHandler();
     } else if (cfg == "nested") {
-        gQtLogger.pipeline().format("%{type} %{message}").sendToFile(path, L, N, opts).end();
+        gQtLogger.pipeline().format(pat).sendToFile(path, L, N, opts).end();
+        gQtLogger.installMessageHandler();
+    } else if (cfg == "brokenfirst") {                   // an earlier file sink cannot even open its file
+        gQtLogger.format(pat).sendToFile(dir + "/no-such-dir/broken.log").sendToFile(path, L, N, opts);
+        gQtLogger.installMessageHandler();
+    } else if (cfg == "fullfirst") {                     // an earlier file sink sits on a full device: every flush fails
+        gQtLogger.format(pat).sendToFile(QStringLiteral("/dev/full")).pipeline().sendToFile(path, L, N, opts).end();
+        gQtLogger.installMessageHandler();
+    } else if (cfg == "twofiles") {                      // two healthy file sinks, the second inside a sub-pipeline
+        gQtLogger.format(pat).sendToFile(dir + "/second.log").pipeline().sendToFile(path, L, N, opts).end();
+        gQtLogger.installMessageHandler();
+    } else if (cfg == "stderrfirst") {
+        gQtLogger.format(pat).sendToStdErr().sendToFile(path, L, N, opts);
         gQtLogger.installMessageHandler();
     } else if (cfg == "oneline") {
         gQtLogger.configure(path, L, N, opts, /* async */ false);
     } else if (cfg == "ini") {
         QSettings s(dir + "/cfg.ini", QSettings::IniFormat);
         s.setValue("logger/path", path);
-        s.setValue("logger/message_pattern", "%{type} %{message}");
+        s.setValue("logger/message_pattern", pat);
         if (L > 0) s.setValue("logger/max_file_size", L);
         s.setValue("logger/max_file_count", N);
         if (sink == "rotdaily") s.setValue("logger/rotate_daily", true);
@@ -50,7 +77,7 @@ int main(int argc, char **argv)
         s.sync();
         gQtLogger.configure(s);
     } else return 2;
-    if (thr == "main") work(n, size);
-    else { std::thread t([&] { work(n, size); }); t.join(); }
+    if (thr == "main") work(lens);
+    else { std::thread t([&] { work(lens); }); t.join(); }
     return 0; // not reached
 }
